@@ -928,8 +928,10 @@ class GroupBy:
         # Now combine the results for each value in value_list to get one result per value
         individual_results = []
         # Some functions like 'first' and 'last' don't have nan versions
-        if func_name in ("size", "count", "sum_squares"):
-            reducer = numba_funcs.ScalarFuncs.nansum
+        if func_name in ("size", "count", "sum", "sum_squares"):
+            # partial sums hold no nulls (an empty partial is skipped through its count): they are
+            # simply added, so that one which happens to equal the integer null sentinel is not dropped
+            reducer = numba_funcs.ScalarFuncs.sum
         elif hasattr(numba_funcs.ScalarFuncs, f"nan{func_name}"):
             reducer = getattr(numba_funcs.ScalarFuncs, f"nan{func_name}")
         else:
